@@ -422,6 +422,9 @@ pub struct Own {
     pub id: u32,
     pub cw: ClientWrapper,
     pub attached: bool,
+    /// keys prepared after `Manager::detach()` had returned (and not removed by the owner since):
+    /// no registry operation may touch them, whenever it started
+    pub kept: Vec<u8>,
 }
 
 pub struct CWorld {
@@ -547,6 +550,7 @@ fn run_op(actor: usize, op: COp) {
                     }
                 });
             }
+            let prepared_ok = matches!(end, PollEnd::Ready(Ok(_)));
             with_c(|w| {
                 w.cur_cancellable[actor] = false;
                 match end {
@@ -575,6 +579,13 @@ fn run_op(actor: usize, op: COp) {
                     }
                 }
             });
+            let mut cl = cl;
+            if let (Cl::Own(o, _), true) = (&mut cl, prepared_ok) {
+                let k = key % KEYS.len() as u8;
+                if !o.attached && !o.kept.contains(&k) {
+                    o.kept.push(k);
+                }
+            }
             put_back(actor, cl);
         }
         COp::Remove { t, key } => {
@@ -595,6 +606,11 @@ fn run_op(actor: usize, op: COp) {
                     w.violate("unexpected_panic", format!("StatementCache::remove panicked: {m}"));
                 }
             });
+            let mut cl = cl;
+            if let Cl::Own(o, _) = &mut cl {
+                let k = key % KEYS.len() as u8;
+                o.kept.retain(|x| *x != k);
+            }
             put_back(actor, cl);
         }
         COp::Clear { t } => {
@@ -606,6 +622,10 @@ fn run_op(actor: usize, op: COp) {
                     let m = panic_msg();
                     w.violate("unexpected_panic", format!("StatementCache::clear panicked: {m}"));
                 });
+            }
+            let mut cl = cl;
+            if let Cl::Own(o, _) = &mut cl {
+                o.kept.clear();
             }
             put_back(actor, cl);
         }
@@ -653,7 +673,7 @@ fn run_op(actor: usize, op: COp) {
                 PollEnd::Ready(Ok(cw)) => {
                     let id = w.next_id;
                     w.next_id += 1;
-                    w.own[actor].push(Own { id, cw, attached: true });
+                    w.own[actor].push(Own { id, cw, attached: true, kept: Vec::new() });
                     w.probe("attached_in_run");
                 }
                 PollEnd::Ready(Err(e)) => w.violate("harness", format!("scripted connect failed: {e}")),
@@ -765,6 +785,32 @@ fn final_checks(w: &mut CWorld) -> Option<Violation> {
     for (a, l) in w.own.iter().enumerate() {
         for o in l.iter() {
             clients.push((format!("client #{} of thread {a} ({})", o.id, if o.attached { "attached" } else { "detached" }), &o.cw, o.attached));
+        }
+    }
+    // what was prepared on a client after the manager had let go of it is out of the registry's reach
+    for (a, l) in w.own.iter().enumerate() {
+        for o in l.iter().filter(|o| !o.attached) {
+            for k in o.kept.iter() {
+                let (q, ty) = KEYS[*k as usize % KEYS.len()];
+                // a hit costs no round trip: the future is ready at its first poll
+                let tys = types(ty);
+                let mut fut = Box::pin(o.cw.statement_cache.prepare_typed(&o.cw, query(q), &tys));
+                let hit = match guarded_ctl("StatementCache::prepare_typed", || engine::poll_once(fut.as_mut())) {
+                    Ok(p) => p.is_ready(),
+                    Err(v) => return Some(v),
+                };
+                drop(fut);
+                if !hit {
+                    return Some(engine::violation(
+                        PROP,
+                        "registry_spares_detached_clients",
+                        format!(
+                            "client #{} of thread {a}: key {k} was prepared after Manager::detach() had returned and nobody removed it since, but it is no longer cached",
+                            o.id
+                        ),
+                    ));
+                }
+            }
         }
     }
     let mut sizes = Vec::new();
